@@ -158,6 +158,18 @@ def load_point(p, reg, pt, rng, how=None, scratch=("e4", "e5", "e6", "e7")):
             v = (P + y) | ((x & 1) << 255)
         return p.point_from_bytes(reg, le(v))
     lam = 1
+    if how.startswith("ext-unit"):
+        # normalised on another coordinate: "ext-unit-x" makes X exactly 1, "ext-unit-y-" makes Y exactly -1, ...
+        c = {"x": x, "y": y, "t": x * y % P}[how[9]]
+        if c % P == 0:
+            how = "ext-lam"
+        else:
+            lam = inv(c) * (P - 1 if how.endswith("-") else 1) % P
+            how = "ext"
+            vals = [x * lam % P, y * lam % P, lam % P, x * y * lam % P]
+            for r, v in zip(scratch, vals):
+                p.elem_from_int(r, v)
+            return p.op("Point.SetExtendedCoordinates", r=reg, a=list(scratch))
     if how in ("ext-lam", "ext-ncl"):
         lam = rng.choice([2, P - 1, rng.randrange(1, P), rng.randrange(1, 2**20)])
         # representations normalised on another coordinate: X, Y or T (instead of Z) equal to exactly 1, or to -1
@@ -777,6 +789,15 @@ def suite_C05(g, tier):
         p.op("Point.Bytes", r="p0", o=["b0"])
         p.op("Point.SetBytes", r="p1", a=["b0"])
         p.op("Point.Equal", r="p0", a=["p1"])
+    for it in range(2 if tier == "quick" else 20):
+        p = g.new("C05 unit-normalised representations")
+        A = any_point(rng)
+        for k, how in enumerate(["ext-unit-x", "ext-unit-y", "ext-unit-t", "ext-unit-x-", "ext-unit-y-", "ext-unit-t-"]):
+            r = "p%d" % (k % 3)
+            load_point(p, r, A, rng, how)
+            p.op("Point.Bytes", r=r, o=["b0"])
+            p.op("Point.SetBytes", r="p4", a=["b0"])
+            p.op("Point.Equal", r="p4", a=[r])
     # every small-order point in every way of loading it (zero coordinates as zero limbs, as limbs of p, rescaled ...)
     for t in TORS_PTS:
         p = g.new("C05 small-order point, every representation")
@@ -1911,6 +1932,16 @@ def suite_C17(g, tier):
         p.scalar_canon("s0", 0)
         p.op("Point.ScalarMult", r="p5", a=["s0", "p0"])
         p.op("Point.BytesMontgomery", r="p5", o=["b5"])
+    # representations normalised on X, Y or T instead of Z (a coordinate equal to exactly 1 or -1)
+    for it in range(3 if tier == "quick" else 30):
+        p = g.new("C17 unit-normalised representations")
+        A = any_point(rng) if it else BPT
+        for k, how in enumerate(["ext-unit-x", "ext-unit-y", "ext-unit-t", "ext-unit-x-", "ext-unit-y-", "ext-unit-t-"]):
+            r = "p%d" % (k % 3)
+            load_point(p, r, A, rng, how)
+            p.op("Point.BytesMontgomery", r=r, o=["b0"])
+            p.op("Point.Bytes", r=r, o=["b1"])
+            p.op("Point.Equal", r=r, a=["p%d" % ((k + 1) % 3)]) if k else None
     for t in TORS_PTS:
         p = g.new("C17 small order")
         load_point(p, "p0", t, rng)
